@@ -68,8 +68,43 @@ class Interp:
             else:
                 names = list(spec)
                 ns = {EVENT[p]: make_method(EVENT[p]) for p in PROPS}
-                cls = type(f'L{i}', (), ns)
-                cls = d.event_handler(*[EVENT[p] for p in names])(cls)
+                kinds = self.cfg.get('cbkinds', {}).get(str(i), {})
+                for p, kind in kinds.items():
+                    # callbacks that are not plain functions: the dispatcher
+                    # calls whatever the class attribute is with
+                    # (listener, value)
+                    f = ns[EVENT[p]]
+                    if kind == 'partial':
+                        import functools
+                        w = functools.partial(f)
+                        w._owner = -1
+                    elif kind == 'static':
+                        w = staticmethod(f)
+                    else:
+                        class CallableObj:
+                            _owner = -1
+
+                            def __call__(self, listener, value, f=f):
+                                return f(listener, value)
+                        w = CallableObj()
+                    ns[EVENT[p]] = w
+                    self.probes['callback_not_a_plain_function'] += 1
+                if self.cfg.get('inst_events', {}).get(str(i)):
+                    # the mapping is an attribute of each instance; the class
+                    # itself maps something else (or nothing)
+                    mine = {EVENT[p]: EVENT[p] for p in names}
+                    other = self.cfg['inst_events'][str(i)]
+
+                    def __init__(self, mine=mine):
+                        self.__events__ = dict(mine)
+                    ns['__init__'] = __init__
+                    cls = type(f'L{i}', (), ns)
+                    if other != 'none':
+                        cls = d.event_handler(*[EVENT[p] for p in other])(cls)
+                    self.probes['instance_level_mapping'] += 1
+                else:
+                    cls = type(f'L{i}', (), ns)
+                    cls = d.event_handler(*[EVENT[p] for p in names])(cls)
             self.lclasses.append(cls)
             self.lnames.append(names)
         self.listeners = []
@@ -441,12 +476,29 @@ def generate(prop, run_seed, tier='quick', tolerate=frozenset()):
     for _ in range(crng.randint(1, 3)):
         lclasses.append([p for p in PROPS if crng.random() < .6] or
                         [crng.choice(PROPS)])
+    extra = {}
+    if crng.random() < .15:
+        extra['cbkinds'] = {str(i): {p: crng.choice(['partial', 'static',
+                                                     'object'])
+                                     for p in PROPS if crng.random() < .5}
+                            for i in range(len(lclasses))}
+    if crng.random() < .15:
+        extra['inst_events'] = {
+            str(i): crng.choice(['none', [crng.choice(PROPS)],
+                                 list(PROPS)])
+            for i in range(len(lclasses)) if crng.random() < .6}
     if crng.random() < .3:
         # subclasses of listener classes: decorated again or not, overriding
         # some of the callbacks
         for _ in range(crng.randint(1, 2)):
+            ok = [i for i in range(len(lclasses))
+                  if str(i) not in extra.get('inst_events', {})
+                  and not (isinstance(lclasses[i], dict) and str(
+                      lclasses[i]['base']) in extra.get('inst_events', {}))]
+            if not ok:
+                break
             lclasses.append({
-                'base': crng.randrange(len(lclasses)),
+                'base': crng.choice(ok),
                 'names': ([p for p in PROPS if crng.random() < .5]
                           if crng.random() < .4 else None),
                 'override': [p for p in PROPS if crng.random() < .6]})
@@ -454,6 +506,7 @@ def generate(prop, run_seed, tier='quick', tolerate=frozenset()):
                  for _ in range(crng.randint(1, 4))]
     cfg = {'policy': crng.choice(kernel.POLICIES), 'transforms': transforms,
            'lclasses': lclasses, 'listeners': listeners}
+    cfg.update(extra)
     ops = []
     nt, nl = len(transforms), len(listeners)
     for li in range(nl):
@@ -542,4 +595,5 @@ PROBES = {'C20': ['rotation_out_of_range', 'negative_rotation',
                   'rotation_out_of_range_with_listener',
                   'assignment_from_inside_a_callback', 'cascade_checked',
                   'listener_subclass_overrides', 'feedback_chain>64',
+                  'callback_not_a_plain_function', 'instance_level_mapping',
                   'raising_listener_storm']}
